@@ -44,7 +44,7 @@ import (
 //@ directive[C03] census goroutine
 // C02: stdout of generate is the regex and nothing else: os.Stdout is handed to nobody (a logger,
 // a writer) except by the two commands whose output it is
-//@ directive[C02] census stdoutref cmd.createCompletionCommand cmd.createGenerateCommand
+//@ directive[C02,C03] census stdoutref cmd.createCompletionCommand cmd.createGenerateCommand
 
 // ---- C17: every scan loop is in a function whose contract carries the scanner protocol
 //@ directive[C17] census scanloop parser.Parser.Parse operators.Operator.assemble cmd.processFile util.TestRenumberer.processYaml chore.updateRules parser.replaceSuffixes parser.removeExclusions parser.buildinclusionLineMap
@@ -652,7 +652,7 @@ func OpaqueGlob(pattern string) []string { m, _ := filepath.Glob(pattern); retur
 //@   modifies fsWrites
 //@   checks[C18,C16] large-offset-aborts: implies(called(ParseUint) && resultOf(ParseUint, 1) != nil && len(reGroup(regex.RuleIdFileNameRegex, resultOf(Name, 0), 2)) > 0, r != nil)
 //@   checks[C18] same-grammar: implies(called(processRule), reMatch(regex.RuleIdFileNameRegex, resultOf(Name, 0)))
-//@   checks[C15] only-ra-files: implies(called(processRule), resultOf(Ext, 0) == ".ra")
+//@   checks[C15,C18] only-ra-files: implies(called(processRule), resultOf(Ext, 0) == ".ra")
 //@   checks[C18,C11,C08] id-and-offset-from-this-file-name: implies(called(processRule), argOf(processRule, 0) == reGroup(regex.RuleIdFileNameRegex, resultOf(Name, 0), 1) && argOf(processRule, 1) == ite(len(reGroup(regex.RuleIdFileNameRegex, resultOf(Name, 0), 2)) == 0, 0, utils.OpaqueDec(reGroup(regex.RuleIdFileNameRegex, resultOf(Name, 0), 2))) && argOf(processRule, 2) == filePath)
 
 //@ contract performCompare#0
@@ -684,13 +684,13 @@ func OpaqueGlob(pattern string) []string { m, _ := filepath.Glob(pattern); retur
 // ---- C18: generate hands the assembler exactly the bytes it read - the file's or stdin's -
 // so a file argument and the same bytes on stdin cannot give different results
 //@ contract createGenerateCommand#1
-//@   tags C18 C02 C04 C03 C17
+//@   tags C18 C02 C04 C03 C17 C12
 //@   checks[C18] file-bytes-reach-the-assembler-unchanged: implies(called(Run) && called(ReadFile), argOf(Run, 0) == lastRead())
 //@   checks[C18] stdin-bytes-reach-the-assembler-unchanged: implies(called(Run) && called(ReadAll), argOf(Run, 0) == resultOf(ReadAll, 0))
 //@   checks[C18,C03,C17] one-source: implies(called(Run), called(ReadFile) != called(ReadAll))
 //@   checks[C18] the-resolved-file-is-read: implies(called(ReadFile), argOf(ReadFile, 0) == OpaquePathJoin2(resultOf(AssemblyDir, 0), ruleValues.fileName))
 //@   checks[C18,C04] the-resolved-root-is-used: ((called(context.New) && argOf(context.New, 0) == string(rootValues.workingDirectory) && argOf(context.New, 1) == string(rootValues.configurationFileName)) || (called(NewWithConfiguration) && argOf(NewWithConfiguration, 0) == string(rootValues.workingDirectory) && called(configuration.New) && argOf(configuration.New, 0) == string(rootValues.workingDirectory)+"/regex-assembly" && argOf(configuration.New, 1) == string(rootValues.configurationFileName) && argOf(NewWithConfiguration, 1) == resultOf(configuration.New, 0)))
-//@   checks[C02,C18] the-result-is-printed-verbatim: implies(called(Run) && resultOf(Run, 1) == nil, called(WriteString) && argOf(WriteString, 0) == resultOf(Run, 0))
+//@   checks[C02,C18,C12] the-result-is-printed-verbatim: implies(called(Run) && resultOf(Run, 1) == nil, called(WriteString) && argOf(WriteString, 0) == resultOf(Run, 0))
 
 // ---- C16 / C09: the format command returns what processFile / processAll report (cobra turns
 // a returned error into a non-zero exit status), and processAll fails when one file failed
@@ -808,10 +808,10 @@ func OpaqueGlob(pattern string) []string { m, _ := filepath.Glob(pattern); retur
 //@   ensures implies(err == nil, len(r) > 0 && r[0] == '/')
 
 //@ contract workingDirectory.Set
-//@   tags C18
+//@   tags C18 C15 C16
 //@   results err
 //@   checks[C18] the-nearest-root-is-stored: implies(err == nil, called(findRootDirectory) && resultOf(findRootDirectory, 1) == nil && *w == resultOf(findRootDirectory, 0) && argOf(findRootDirectory, 0) == resultOf(Abs, 0))
-//@   checks[C18,C16] no-root-is-an-error: implies(called(findRootDirectory) && resultOf(findRootDirectory, 1) != nil, err != nil)
+//@   checks[C18,C16,C15] no-root-is-an-error: implies(called(findRootDirectory) && resultOf(findRootDirectory, 1) != nil, err != nil)
 
 // ---- C14 / C16: update-copyright only runs with a version that Masterminds/semver accepts (the
 // read-side patterns are proved to match every such version, reglemmas in package regex), and it
